@@ -21,11 +21,11 @@ type fact struct {
 
 // fnCtx is the innermost function (declaration or literal) around a site.
 type fnCtx struct {
-	info   *types.Info
-	body   *ast.BlockStmt
-	par    map[ast.Node]ast.Node
-	asg    map[types.Object][]core.Assign
-	outer  *ast.FuncDecl // enclosing declaration (nil for package-level initialisers)
+	info  *types.Info
+	body  *ast.BlockStmt
+	par   map[ast.Node]ast.Node
+	asg   map[types.Object][]core.Assign
+	outer *ast.FuncDecl // enclosing declaration (nil for package-level initialisers)
 }
 
 func terminates(b *ast.BlockStmt) bool {
